@@ -68,6 +68,16 @@ CHECKS = {
             "All valid producer programs of length <= 4 (thorough 5) over create / destroy object {1,2} and add / remove service {1,2} (so re-creation under the same UUID with a new cookie and partial service sets are forced), an observer with a six-entry discoverer (specific object with one / with two services, any object with one / with two services, two bare objects) started after every number of producer steps - racing with the producer or synchronised with it so that every later step happens in front of a live discoverer -, plain / restarted at every position / current-only, a wait_for_object, and lifetimes bound early and late to every incarnation there ever was; all schedules with <= 1 (thorough 2) deviations. Oracles after bus activity stopped and a sync: each entry reports exactly the qualifying objects with current ids; events per (entry, object) alternate starting with Created, in incarnation order, and agree with the final view; the lifetime has ended iff its object is gone and never before the producer began destroying it; wait_for_object returns an incarnation not destroyed before the wait began and resolves if the object exists.",
             "find_* returning None is not judged",
             "DESIGN.md §5 C19"),
+    "C16": ("schemamc", "exploration",
+            "grammar-directed enumeration of schemas into a generated corpus crate compiled against the current tree (text path = aldrin_codegen::Generator output, macro path = aldrin::generate!), and bounded-exhaustive enumeration of conforming values and non-conforming edits per generated type against the harness's wire descriptors",
+            "A member-type alphabet (all 19 built-ins; option / box / vec / map / set / sender / receiver / result / arrays over built-ins, user structs, enums, newtypes and imported types; nesting depth 2; all ten key types; recursive and mutually recursive types; constants as array lengths; thorough: more nestings) yields per member type seven definitions (struct, struct with fallback and its newer version, enum, enum with fallback and its newer version, newtype), plus odd shapes (boundary field / variant ids 0..70000, empty and fallback-only types, Rust keywords as names, newtype chains as keys, attributes, docs) and services with inline types: ~750 (thorough ~1100) data types, each generated twice. rustc must accept the crate. Per type: every conforming value of the descriptor's bounded enumeration in four container-encoding labellings (all 1.14 forms, all 1.20 forms, two alternations), plain and with unknown field ids / variants added (small id, id needing a multi-byte varint, nested payloads), must decode through both generated types and re-encode to the descriptor's normal form (optional None dropped, unknown fields kept with fallback and dropped without); every systematic non-conforming edit (each required field missing, each field wrongly typed, optional field that is not an option, unknown variant without fallback, wrong container kind) must be rejected by both; values of the newer version of a type pass through the older fallback type and must come back unchanged.",
+            "wire descriptors are the harness's reading of the schema language (wiredesc crate), vec<u8> read as bytes; inline types of services and generated client / server code are compiled but exercised only by the C06 catalogue; schemas above the size bound",
+            "DESIGN.md §5 C16"),
+    "C20": ("schemamc", "exploration",
+            "bounded-exhaustive enumeration of type graphs built at run time (generic slot types reading a thread-local table) presented to the real TypeId::compute in every non-semantic way, with one global bijection oracle between ids and canonical wire-relevant descriptions; plus three-way agreement of schema-derived IR, generator output and macro output over the generated corpus",
+            "Part A: every single-type variation (field / variant / function / event ids, names, required flags, member types over 8 wrappers incl. self-reference, fallbacks and their names, service uuid / version, schema and type names: ~6500 shapes x 4 names), all two-type wirings over all wrappers (8100) with renamed / re-homed second type, all three-type wirings over a reduced wrapper set (9261; chains, diamonds, cycles, unreachable types), and graphs whose two referenced types share a name across schemas; each graph in 9-21 (thorough 36-84) presentations (host slot permutation, member insertion order, order and multiplicity of add_references, docs on / off), each id computed twice. Oracle: ids equal across presentations and runs, and over the whole run id <-> canonical description (own description + set of descriptions of everything reachable) is a bijection; Introspection records round-trip through serialize / deserialize, carry the computed id, and every id mentioned in a layout is listed in references and is the id of that member. Part B: for all ~750 data types of the C16 corpus the id computed from the direct translation of the schema into IR equals TypeId::compute of the text-path type and of the macro-path type; records round-trip; twins of three schemas with reversed declaration / member order and docs at every position have the same ids.",
+            "descriptions are compared through a 128-bit hash; service types of generated code are not compared in part B",
+            "DESIGN.md §5 C20"),
     "C17": ("schemamc", "exploration",
             "bounded-exhaustive enumeration of source texts (token strings, complete single-edit families of the repository's schemas, doc-comment / doc-link / markdown strings, identifier and cross-schema type-graph families) through the real parser, renderer, formatter and generator under catch_unwind, a watchdog and an abort handler",
             "All token strings of length <= 2 (thorough 3) over the grammar's 82-token terminal-plus-junk alphabet and <= 3 (5) over a 24-token sub-alphabet, with three joiners; for each of the 83 .aldrin files the complete token-level edit family (delete, duplicate, swap, replace by each alphabet token, truncate after each token) and the character-level edit family inside docs (thorough: comments and strings too); all doc strings of <= 3 (4) fragments over 22 markdown fragments at six kinds of documentable position in LF and CR-LF, split over one or two lines; every doc-link path of <= 2 (3) components over 24 names in five link forms under every import environment; inline-content strings inside 17 markdown block contexts (tables with escaped pipes, quotes, lists, footnotes); 49 identifiers at 31 naming positions; two-definition type graphs over local / imported / recursive imported types under eight wrappers; the valid-schema catalogue of C18 with every prelude slot filled. Seven import environments (nothing, resolvable, transitively missing, cycle, unreadable, broken, recursive types) and unreadable / oddly named main schemas. Per input: parse, render every error and warning with four renderers, format, generate (exactly when there are no errors), all under catch_unwind; a second run must give the same diagnostics (multiset when several schemas are involved) and the same formatted text; an input running longer than 20 s or aborting the process (stack overflow) is a violation with its own replay file.",
